@@ -1,9 +1,175 @@
-//! C12 sessions (seeded driver). Fill in.
+//! C12 sessions: strings for every parser. A seeded writer (independent of the specification) assembles valid
+//! strings in all syntactic variants over the full value ranges; each is then parsed as is, after single- or
+//! multi-character mutations (replace / delete / insert / duplicate / swap / truncate), or replaced by an arbitrary
+//! character or byte string. One event per (parser, string): the characters, accepted?, projected value.
 use super::Tracer;
 use crate::gen::*;
+use crate::ops_parse::chars_tok;
 use crate::rng::Rng;
 use serde_json::json;
 
+const TYPES: [&str; 8] = ["PlainDate", "PlainDateTime", "PlainTime", "PlainYearMonth", "PlainMonthDay", "Instant", "ZonedDateTime", "Duration"];
+const CALS: [&str; 8] = ["iso8601", "gregory", "hebrew", "japanese", "ISO8601", "islamic-civil", "roc", "buddhist"];
+const ZONES: [&str; 6] = ["UTC", "America/New_York", "Europe/London", "Etc/GMT+5", "Asia/Kolkata", "utc"];
+const ALPHABET: &str = "0123456789-+:.,TtZz []!=PpYyMmWwDdHhSsLu-ca=_/aé\u{2212}\u{0}Xx";
+
+fn year_txt(r: &mut Rng, y: i64) -> String {
+    if (0..=9999).contains(&y) && r.chance(4, 5) { format!("{:04}", y) } else { format!("{}{:06}", if y < 0 { '-' } else { '+' }, y.abs()) }
+}
+fn any_year(r: &mut Rng) -> i64 {
+    match r.range(0, 9) { 0 => -271821, 1 => 275760, 2 => r.range(-2, 2), 3 => r.range(9998, 10001), 4 => r.range(-271821, 275760), _ => r.range(1, 3000) }
+}
+fn dim(y: i64, m: i64) -> i64 {
+    match m { 2 => if (y % 4 == 0 && y % 100 != 0) || y % 400 == 0 { 29 } else { 28 }, 4 | 6 | 9 | 11 => 30, _ => 31 }
+}
+fn date_txt(r: &mut Rng) -> String {
+    let y = any_year(r);
+    let m = r.range(1, 12);
+    let d = match r.range(0, 3) { 0 => dim(y, m), 1 => 1, _ => r.range(1, dim(y, m)) };
+    if r.chance(3, 4) { format!("{}-{:02}-{:02}", year_txt(r, y), m, d) } else { format!("{}{:02}{:02}", year_txt(r, y), m, d) }
+}
+fn frac_txt(r: &mut Rng) -> String {
+    if r.chance(1, 2) { return String::new(); }
+    let n = r.range(1, 9) as usize;
+    let mut s = String::from(if r.chance(4, 5) { "." } else { "," });
+    for _ in 0..n { s.push(char::from(b'0' + r.range(0, 9) as u8)); }
+    s
+}
+fn time_txt(r: &mut Rng) -> String {
+    let (h, mi) = (r.range(0, 23), r.range(0, 59));
+    let s = if r.chance(1, 12) { 60 } else { r.range(0, 59) };
+    match r.range(0, 6) {
+        0 => format!("{:02}", h),
+        1 => format!("{:02}:{:02}", h, mi),
+        2 => format!("{:02}{:02}", h, mi),
+        3 => format!("{:02}{:02}{:02}{}", h, mi, s, frac_txt(r)),
+        _ => format!("{:02}:{:02}:{:02}{}", h, mi, s, frac_txt(r)),
+    }
+}
+fn offset_txt(r: &mut Rng, sub: bool) -> String {
+    let sg = if r.chance(1, 2) { '+' } else { '-' };
+    let (h, m, s) = (r.range(0, 23), if r.chance(1, 2) { 0 } else { r.range(0, 59) }, r.range(0, 59));
+    match r.range(0, if sub { 5 } else { 3 }) {
+        0 => format!("{}{:02}", sg, h),
+        1 | 2 => format!("{}{:02}:{:02}", sg, h, m),
+        3 => format!("{}{:02}{:02}", sg, h, m),
+        4 => format!("{}{:02}:{:02}:{:02}{}", sg, h, m, s, frac_txt(r)),
+        _ => format!("{}{:02}{:02}{:02}{}", sg, h, m, s, frac_txt(r)),
+    }
+}
+fn annots_txt(r: &mut Rng, want_tz: bool, tz_matching: Option<&str>) -> String {
+    let mut s = String::new();
+    if want_tz || r.chance(1, 4) {
+        let crit = if r.chance(1, 5) { "!" } else { "" };
+        match tz_matching {
+            Some(o) if r.chance(3, 4) => s += &format!("[{}{}]", crit, o),
+            _ => if r.chance(1, 2) { s += &format!("[{}{}]", crit, r.pick(&ZONES)) } else { s += &format!("[{}{}]", crit, offset_txt(r, false)) },
+        }
+    }
+    if r.chance(1, 3) { s += &format!("[{}u-ca={}]", if r.chance(1, 5) { "!" } else { "" }, r.pick(&CALS)); }
+    if r.chance(1, 8) { s += &format!("[{}u-ca={}]", if r.chance(1, 4) { "!" } else { "" }, r.pick(&CALS)); }
+    if r.chance(1, 6) { s += *r.pick(&["[foo=bar]", "[x-y=a1-b2]", "[!foo=bar]", "[k=v]", "[_a=Zz9]"]); }
+    s
+}
+fn datetime_txt(r: &mut Rng, kind: u8) -> String {
+    // kind 0: plain, 1: instant (offset or Z), 2: zoned (bracket)
+    let mut s = date_txt(r);
+    let mut off: Option<String> = None;
+    if kind > 0 || r.chance(3, 4) {
+        s.push(*r.pick(&['T', 'T', 'T', 't', ' ']));
+        s += &time_txt(r);
+        if kind == 1 || r.chance(1, 3) {
+            if r.chance(1, 3) { s.push(if r.chance(5, 6) { 'Z' } else { 'z' }); } else { let sub = kind != 2 || r.chance(1, 6); let o = offset_txt(r, sub); s += &o; off = Some(o); }
+        }
+    }
+    let m = off.as_deref().filter(|o| o.len() == 6);
+    s + &annots_txt(r, kind == 2, m)
+}
+fn dur_txt(r: &mut Rng) -> String {
+    let mut s = String::from(*r.pick(&["", "", "", "-", "+"]));
+    s.push(if r.chance(9, 10) { 'P' } else { 'p' });
+    let num = |r: &mut Rng| -> String { match r.range(0, 6) { 0 => "0".into(), 1 => r.range(0, 4_000_000_000).to_string(), 2 => format!("{:05}", r.range(0, 999)), _ => r.range(1, 400).to_string() } };
+    let des = |r: &mut Rng, c: char| if r.chance(9, 10) { c } else { c.to_ascii_lowercase() };
+    let mut any = false;
+    for c in ['Y', 'M', 'W', 'D'] { if r.chance(2, 5) { s += &num(r); s.push(des(r, c)); any = true; } }
+    let tu: Vec<char> = ['H', 'M', 'S'].into_iter().filter(|_| r.chance(1, 2)).collect();
+    if !tu.is_empty() || !any {
+        let tu = if tu.is_empty() { vec!['S'] } else { tu };
+        s.push(des(r, 'T'));
+        for (i, c) in tu.iter().enumerate() {
+            s += &num(r);
+            if i + 1 == tu.len() { s += &frac_txt(r); }
+            s.push(des(r, *c));
+        }
+    }
+    s
+}
+fn valid_for(r: &mut Rng, ty: &str) -> String {
+    match ty {
+        "PlainDate" | "PlainDateTime" => datetime_txt(r, 0),
+        "PlainTime" => if r.chance(1, 3) { datetime_txt(r, 0) } else {
+            let t = time_txt(r);
+            let des = if r.chance(1, 3) { *r.pick(&["T", "t"]) } else { "" };
+            format!("{}{}{}{}", des, t, if r.chance(1, 4) { offset_txt(r, true) } else { String::new() }, annots_txt(r, false, None))
+        },
+        "PlainYearMonth" => if r.chance(1, 3) { datetime_txt(r, 0) } else {
+            let y = any_year(r);
+            format!("{}{}{:02}{}", year_txt(r, y), if r.chance(3, 4) { "-" } else { "" }, r.range(1, 12), annots_txt(r, false, None))
+        },
+        "PlainMonthDay" => if r.chance(1, 3) { datetime_txt(r, 0) } else {
+            let m = r.range(1, 12);
+            format!("{}{:02}{}{:02}{}", if r.chance(1, 4) { "--" } else { "" }, m, if r.chance(3, 4) { "-" } else { "" }, r.range(1, dim(1972, m)), annots_txt(r, false, None))
+        },
+        "Instant" => datetime_txt(r, 1),
+        "ZonedDateTime" => datetime_txt(r, 2),
+        "Duration" => dur_txt(r),
+        "UtcOffset" | "TimeZoneId" => if ty == "TimeZoneId" && r.chance(1, 2) { r.pick(&ZONES).to_string() } else { let sub = r.chance(1, 4); offset_txt(r, sub) },
+        "TimeZone" => match r.range(0, 3) { 0 => r.pick(&ZONES).to_string(), 1 => offset_txt(r, false), _ => { let k = r.range(0, 2) as u8; datetime_txt(r, k) } },
+        "MonthCode" => format!("M{:02}{}", r.range(0, 15), if r.chance(1, 3) { "L" } else { "" }),
+        _ => if r.chance(1, 2) { r.pick(&CALS).to_string() } else { datetime_txt(r, 0) },
+    }
+}
+fn mutate(r: &mut Rng, s: &str) -> String {
+    let mut v: Vec<char> = s.chars().collect();
+    let alpha: Vec<char> = ALPHABET.chars().collect();
+    let n = match r.range(0, 5) { 0 | 1 | 2 => 1, 3 => 2, _ => r.range(2, 4) };
+    for _ in 0..n {
+        let len = v.len();
+        if len == 0 { v.push(*r.pick(&alpha)); continue; }
+        let i = r.range(0, len as i64 - 1) as usize;
+        match r.range(0, 6) {
+            0 | 1 => v[i] = *r.pick(&alpha),
+            2 => { v.remove(i); }
+            3 => v.insert(i, *r.pick(&alpha)),
+            4 => { let c = v[i]; v.insert(i, c); }
+            5 => if i + 1 < len { v.swap(i, i + 1) } else { v.push(*r.pick(&alpha)) },
+            _ => v.truncate(i),
+        }
+    }
+    v.into_iter().collect()
+}
+fn arbitrary(r: &mut Rng) -> String {
+    if r.chance(1, 2) {
+        let alpha: Vec<char> = ALPHABET.chars().collect();
+        (0..r.range(0, 24)).map(|_| *r.pick(&alpha)).collect()
+    } else {
+        let bytes: Vec<u8> = (0..r.range(0, 16)).map(|_| r.range(0, 255) as u8).collect();
+        String::from_utf8_lossy(&bytes).into_owned()
+    }
+}
+
 pub fn drive(t: &mut Tracer, r: &mut Rng, n: usize) {
-    let _ = (t, r, n);
+    let small = ["UtcOffset", "TimeZoneId", "TimeZone", "MonthCode", "Calendar"];
+    while t.n < n {
+        let ty: &str = if r.chance(4, 5) { *r.pick(&TYPES) } else { *r.pick(&small) };
+        let base = valid_for(r, ty);
+        let s = match r.range(0, 9) { 0 | 1 | 2 => base, 9 => arbitrary(r), _ => mutate(r, &base) };
+        // the parser the string was written for, and sometimes another one
+        t.call(&format!("Parse.{}", ty), json!({"chars": chars_tok(&s)}));
+        if r.chance(1, 3) {
+            let other: &str = if small.contains(&ty) { *r.pick(&small) } else { *r.pick(&TYPES) };
+            if other != ty { t.call(&format!("Parse.{}", other), json!({"chars": chars_tok(&s)})); }
+        }
+        if r.chance(1, 40) { t.reset(); }
+    }
 }
